@@ -191,7 +191,11 @@ def run(ctx):
         ("map", frozenset([(etf.mklist([one]), one), (etf.mklist([one], ("int", 2)), one)])),
         ("map", frozenset([(etf.NIL, one), (etf.mklist([one], ("atom", b"t")), one)])),
         ("map", frozenset([(("bits", b"\x01", 8), one), (("bits", b"\x01\x80", 9), one)])),
-        ("atom", "é".encode()), ("atom", "ÿþ".encode()), ("tuple", (("atom", "é".encode()), ("atom", b"plain"))),
+        ("atom", "é".encode()), ("atom", "ÿþ".encode()),
+        # names whose Latin-1 bytes look like well-formed UTF-8 (U+00C3 U+00A9 is C3 A9 in Latin-1, which is also "é" in UTF-8)
+        ("atom", "\u00c3\u00a9".encode()), ("atom", "caf\u00c3\u00a9".encode()), ("atom", "\u00e2\u0082\u00ac".encode()),
+        ("tuple", (("atom", "\u00c3\u00a9".encode()), ("atom", "é".encode()))),
+        ("map", frozenset([(("atom", "\u00c3\u00a9".encode()), one), (("atom", "é".encode()), ("int", 2))])), ("tuple", (("atom", "é".encode()), ("atom", b"plain"))),
         ("port", b"n@h", 5, 3), ("port", "é".encode(), 2**32 - 1, 2**32 - 1),
         ("float", termgen.fbits(-0.0)), ("float", termgen.fbits(5e-324)), ("float", termgen.fbits(1.7976931348623157e308)),
         ("int", 2**2040), ("int", -(2**2048) + 1), etf.mklist([("int", c) for c in b"hello"]), etf.mklist([("int", 255)] * 65535),
@@ -214,6 +218,9 @@ def run(ctx):
               bytes([131, 99]) + b"1.50000000000000000000e+00".ljust(31, b"\0"),
               bytes([131, 99]) + b"-3.14159265358979311600e+00".ljust(31, b"\0"),
               bytes([131, 110, 3, 0, 5, 0, 0]), bytes([131, 111, 0, 0, 0, 2, 1, 0, 1]), bytes([131, 98, 0, 0, 0, 7])]
+    datas += [bytes([131, 100, 0, 2, 0xc3, 0xa9]), bytes([131, 115, 2, 0xc3, 0xa9]), bytes([131, 115, 3, 0xe2, 0x82, 0xac]),
+              bytes([131, 104, 2, 115, 2, 0xc3, 0xa9, 119, 2, 0xc3, 0xa9]),
+              bytes([131, 116, 0, 0, 0, 2, 115, 2, 0xc3, 0xa9, 97, 1, 119, 2, 0xc3, 0xa9, 97, 2])]
     datas += pair_maps(rng, ctx.budget(2500, 20000))
     pairs = bytesgen.valid_encodings(rng, ctx.budget(3500, 150000), canonical_share=0.15)
     for v, d in pairs:
@@ -232,3 +239,45 @@ def run(ctx):
             ks.append("tag:%d" % t)
         return ks
     ctx.diff_domain("codec", cases, oracle=oracle, nontrivial=nontrivial, classify=classify)
+    # histories of decode calls on one thread: whatever a call leaves behind (a failed one in particular) must not reach the
+    # next; compressed terms with a wrong declared size or a truncated stream next to valid ones
+    small = [d for d in datas if len(d) < 3000]
+    comp_ok = [E(v, compress=True) for v in specials[:8]] + [E(etf.mklist([("int", 7)] * 500), compress=True)]
+    hcases, HEXP = [], {}
+    for _ in range(ctx.budget(150, 3000)):
+        elems = []
+        for _e in range(rng.choice([2, 3, 5])):
+            r = rng.random()
+            d = rng.choice(comp_ok) if r < 0.45 else rng.choice(small)
+            if r < 0.45 and rng.random() < 0.5:
+                k = rng.random()
+                if k < 0.35 and len(d) > 12:
+                    d = d[:rng.randrange(7, len(d) - 1)]                                        # truncated stream
+                elif k < 0.7:
+                    n = struct.unpack(">I", d[2:6])[0]
+                    d = d[:2] + struct.pack(">I", max(0, n + rng.choice([-3, -1, 1, 2, 1000]))) + d[6:]   # wrong declared size
+                else:
+                    d = d + bytes([rng.randrange(256)])                                         # trailing byte
+            elems.append(d)
+        one_by_one = bytesgen.attach_ztabs("dec", elems)
+        # the inflate oracle's entries of all elements, longest stream first (a truncated stream is a prefix of the full one)
+        ents = {}
+        for x in one_by_one:
+            w = x.split()[2:]
+            for i in range(0, len(w) - 3, 4):
+                ents[w[i + 1]] = " ".join(w[i:i + 4])
+        ztail = " ".join(ents[k] for k in sorted(ents, key=len, reverse=True))
+        case = "dech " + ",".join(d.hex() for d in elems) + ((" " + ztail) if ztail else "")
+        HEXP[case] = elems
+        hcases.append(case)
+
+    def hist_oracle(case, impl):
+        if impl.startswith(("PANIC", "CRASH", "TIMEOUT")):
+            return ("violation", "decode did not return: " + impl[:60])
+        outs = impl.split(" ;; ")
+        for d, o in zip(HEXP[case], outs):
+            r = oracle("dec " + d.hex(), o)
+            if r is not None and r[0] == "violation":
+                return ("violation", "in a history of decode calls on one thread: " + r[1])
+        return None
+    ctx.diff_domain("codec", hcases, oracle=hist_oracle, nontrivial=lambda c, i: c, classify=lambda c, i: ["op:dech", "calls:%d" % len(HEXP[c])])
